@@ -36,7 +36,8 @@ RULE = (
     'Hypothesis-generated histories of 4-8 operations {publish(project, version, dir|zip), train(project, release|latest, '
     '1-3 states, trigger|explicit tag), read(latest|explicit), prune(generation directory)} over 2 projects and a pool of '
     '11 PEP 440 versions (pre/post/dev releases, equal spellings, 1.10 vs 1.2) on a posix registry, each publish/train '
-    'optionally carrying a crash point (k-th file-system event, j bytes into a write); the same histories without '
+    'optionally carrying a crash point (k-th file-system event, j bytes into a write); histories starting with the scripted '
+    'shape publish, train, train, prune(inner), train (numbering over a gap); the same histories without '
     'crash/prune on the volatile registry; plus the exhaustive sweep of every crash point (every k, j in {0, 1, half, '
     'len-1} for writes, and after the last event) of canonical commits and publishes (dir and zip), each followed by a '
     'retry (thorough: of every commit/publish of every generated history). Non-trivial: the history executes >=2 '
@@ -96,7 +97,7 @@ _state = st.one_of(
 
 
 @st.composite
-def history(draw, regkind='posix'):
+def history(draw, regkind='posix', gap=False):
     crashable = regkind == 'posix'
     nops = draw(st.integers(4, 8))
     ops = []
@@ -105,8 +106,8 @@ def history(draw, regkind='posix'):
     lastr = {p: None for p in range(len(PROJECTS))}
     clock = 0
     follow = None  # a training right after a prune (numbering over the gap)
-    # one history in five starts with the scripted shape that makes a numbering gap; the rest is free
-    script = ['publish', 'train', 'train', 'prune', 'train'] if crashable and draw(st.integers(0, 9)) >= 8 else []
+    # the 'gaps' campaign starts every history with the scripted shape that makes a numbering gap; the rest is free
+    script = ['publish', 'train', 'train', 'prune', 'train'] if gap else []
     nops = max(nops, len(script))
     for _ in range(nops):
         p = draw(st.sampled_from([0, 0, 0, 0, 1]))
@@ -149,7 +150,7 @@ def history(draw, regkind='posix'):
         elif kind == 'read':
             op.update(r=draw(st.sampled_from([None, None, 0, 1, 2])), g=draw(st.sampled_from([None, None, 0, 1, 2, 3])))
         else:
-            op.update(r=lastr[p], g=draw(st.sampled_from([0, 0, 0, 1, 2, 3])))
+            op.update(r=lastr[p], g=0 if scripted else draw(st.sampled_from([0, 0, 0, 1, 2, 3])))
             trains[p] = 0
         if crashable and not scripted and kind in ('publish', 'train') and draw(st.integers(0, 9)) >= 6:
             op['crash'] = {'k': draw(st.integers(0, 40)), 'j': draw(st.sampled_from(fault.JMODES))}
@@ -850,7 +851,8 @@ CANONICAL = [
 
 def campaigns(ctx):
     return [
-        Campaign('history', history('posix'), check_history, 90, 40),
+        Campaign('history', history('posix'), check_history, 80, 40),
+        Campaign('gaps', history('posix', gap=True), check_history, 12, 6),
         Campaign('volatile', history('volatile'), check_history, 30, 150),
     ]
 
